@@ -160,6 +160,14 @@ def run_forest(sh, ctx):
 	rng = random.Random(f'C03-{ctx.seed}-{sh["sub"]}')
 	for i in range(sh['n']):
 		model, gt, dists = gen_forest(rng)
+		if i % 199 == 7:
+			# a lineage deeper than the interpreter's recursion limit (thresholds sparse and not monotone, genomes at any level)
+			L = rng.randint(1100, 1600)
+			model = [TX.T(j, None, rng.choice([None, None, None] + THRS + F64_THRS), rng.random() < 0.5) for j in range(L)]
+			for j in range(L - 1):
+				model[j].parent = model[j + 1]
+			gt = [rng.randrange(L) for _ in range(len(gt))]
+			ctx.count('lineages_deeper_than_recursion_limit')
 		otaxa = orm.make_taxa(model)
 		genomes = orm.make_genomes(otaxa, gt)
 		w = dict(parents=[mi(t.parent) for t in model], thresholds=[t.thr for t in model], report=[t.report for t in model], genome_taxa=gt, dists=[float(d) for d in dists])
@@ -265,7 +273,7 @@ def run_shard(sh, ctx):
 
 def finalize(merged, tier, seed, inconclusive):
 	c = merged['counters']
-	for n in ['lineages', 'lineages_with_thresholdless_leaf', 'distance_exactly_on_threshold', 'tied_minimum', 'e2e_api_queries', 'e2e_cli_commands', 'e2e_distance_exactly_on_a_threshold', 'distance_is_the_single_precision_value_of_a_threshold']:
+	for n in ['lineages', 'lineages_with_thresholdless_leaf', 'distance_exactly_on_threshold', 'tied_minimum', 'e2e_api_queries', 'e2e_cli_commands', 'e2e_distance_exactly_on_a_threshold', 'distance_is_the_single_precision_value_of_a_threshold', 'lineages_deeper_than_recursion_limit']:
 		if c.get(n, 0) == 0:
 			inconclusive.append(f'class never observed: {n}')
 	return dict(exhaustive=True, max_depth=max(merged['sets'].get('depths', {0})),
